@@ -91,9 +91,10 @@ def run(ctx):
     # check_signed_contract accepts only contracts whose signature is recoverable: the conditions under which
     # essential-sign treats a signature as well-formed (C19 R2/R3) are part of that validator
     from . import C19
-    ctx.rule("R5", "signed contracts: a malformed signature (bytes or recovery id out of range) is an error and verification precedes acceptance (C19 R2/R3)")
+    ctx.rule("R5", "signed contracts: a malformed signature (bytes or recovery id out of range) is an error, verification precedes acceptance and adds no condition beyond recoverability (C19 R2/R3/R6)")
     C19.run(C19._Only(ctx, "R2", "R5"))
     C19.run(C19._Only(ctx, "R3", "R5"))
+    C19.acceptance_tables(ctx, prog, "R5")
     fns = [f for f in prog.fns_by_crate["essential_check"] if f.kind != "Const"]
     found = {l[0]: 0 for l in LIMITS}
     for fn in fns:
